@@ -41,14 +41,11 @@ func MessageToAnyWithError(msg proto.Message) (*anypb.Any, error) {
 }
 
 func marshal(msg proto.Message) ([]byte, error) {
-	if features.EnableVtprotobuf {
-		if vt, ok := msg.(vtStrictMarshal); ok {
-			// Attempt to use more efficient implementation
-			// "Strict" is the equivalent to Deterministic=true below
-			return vt.MarshalVTStrict()
-		}
-	}
-	// If not available, fallback to normal implementation
+	// The vtprotobuf MarshalVTStrict methods are not used here: they are NOT the equivalent of Deterministic=true.
+	// "Strict" fixes the order of the fields, but map fields are still written in Go map iteration order
+	// (`for k := range m.FilterMetadata` in the generated code). In a build with -tags=vtprotobuf (the shipped istiod)
+	// the same message - every cluster carries metadata maps - was serialized to different bytes from one push to the
+	// next. The same state and proxy must give byte-identical xDS, so resources are always marshalled deterministically.
 	return proto.MarshalOptions{Deterministic: true}.Marshal(msg)
 }
 
@@ -90,10 +87,6 @@ func UnmarshalAny[T any](a *anypb.Any) (*T, error) {
 }
 
 // https://github.com/planetscale/vtprotobuf#available-features
-type vtStrictMarshal interface {
-	MarshalVTStrict() ([]byte, error)
-}
-
 type vtEquals[T proto.Message] interface {
 	EqualVT(T) bool
 }
